@@ -1,5 +1,5 @@
 //! `real abi`: an assembly caller loads a chosen pattern into every argument, callee-saved and scratch
-//! register (integer and xmm0-7) plus three stack arguments and calls a faked assembly target; the
+//! register (integer, and the vector registers 0-7 at full width: ymm with AVX, else xmm) plus three stack arguments and calls a faked assembly target; the
 //! assembly fake records the complete register file, the stack pointer, the return address and the
 //! stack arguments at its entry; the caller records what it sees after the return.
 //! input: <id> <near|far|bool0|bool1> <n patterns> <seed>
@@ -11,6 +11,9 @@ use std::arch::global_asm;
 #[no_mangle] pub static mut VP_ENTRY: [u64; 40] = [0; 40];    // same layout, then 25 rsp, 26 return address
 #[no_mangle] pub static mut VP_AFTER: [u64; 16] = [0; 16];    // 0 rax 1 rdx 2-7 rbx rbp r12-r15 8 rsp-before-call 9 rsp-after-call
 #[no_mangle] pub static mut VP_TARGET_PTR: u64 = 0;
+#[no_mangle] pub static mut VP_VPAT: [u64; 32] = [0; 32];     // the 8 vector argument registers at full width (4 x 64 bits each; lanes 2,3 only with AVX); lane 0 = VP_PAT[14+i]
+#[no_mangle] pub static mut VP_VENTRY: [u64; 32] = [0; 32];
+#[no_mangle] pub static mut VP_AVX: u64 = 0;
 
 global_asm!(r#"
 .intel_syntax noprefix
@@ -48,6 +51,27 @@ vp_fake:
     movq [rip + VP_ENTRY + 152], xmm5
     movq [rip + VP_ENTRY + 160], xmm6
     movq [rip + VP_ENTRY + 168], xmm7
+    cmp qword ptr [rip + VP_AVX], 0
+    je 11f
+    vmovdqu [rip + VP_VENTRY + 0], ymm0
+    vmovdqu [rip + VP_VENTRY + 32], ymm1
+    vmovdqu [rip + VP_VENTRY + 64], ymm2
+    vmovdqu [rip + VP_VENTRY + 96], ymm3
+    vmovdqu [rip + VP_VENTRY + 128], ymm4
+    vmovdqu [rip + VP_VENTRY + 160], ymm5
+    vmovdqu [rip + VP_VENTRY + 192], ymm6
+    vmovdqu [rip + VP_VENTRY + 224], ymm7
+    jmp 12f
+11:
+    movdqu [rip + VP_VENTRY + 0], xmm0
+    movdqu [rip + VP_VENTRY + 32], xmm1
+    movdqu [rip + VP_VENTRY + 64], xmm2
+    movdqu [rip + VP_VENTRY + 96], xmm3
+    movdqu [rip + VP_VENTRY + 128], xmm4
+    movdqu [rip + VP_VENTRY + 160], xmm5
+    movdqu [rip + VP_VENTRY + 192], xmm6
+    movdqu [rip + VP_VENTRY + 224], xmm7
+12:
     mov rax, [rsp + 8]
     mov [rip + VP_ENTRY + 176], rax
     mov rax, [rsp + 16]
@@ -84,14 +108,27 @@ vp_caller:
     mov r15, [rax + 88]
     mov r10, [rax + 96]
     mov r11, [rax + 104]
-    movq xmm0, [rax + 112]
-    movq xmm1, [rax + 120]
-    movq xmm2, [rax + 128]
-    movq xmm3, [rax + 136]
-    movq xmm4, [rax + 144]
-    movq xmm5, [rax + 152]
-    movq xmm6, [rax + 160]
-    movq xmm7, [rax + 168]
+    cmp qword ptr [rip + VP_AVX], 0
+    je 21f
+    vmovdqu ymm0, [rip + VP_VPAT + 0]
+    vmovdqu ymm1, [rip + VP_VPAT + 32]
+    vmovdqu ymm2, [rip + VP_VPAT + 64]
+    vmovdqu ymm3, [rip + VP_VPAT + 96]
+    vmovdqu ymm4, [rip + VP_VPAT + 128]
+    vmovdqu ymm5, [rip + VP_VPAT + 160]
+    vmovdqu ymm6, [rip + VP_VPAT + 192]
+    vmovdqu ymm7, [rip + VP_VPAT + 224]
+    jmp 22f
+21:
+    movdqu xmm0, [rip + VP_VPAT + 0]
+    movdqu xmm1, [rip + VP_VPAT + 32]
+    movdqu xmm2, [rip + VP_VPAT + 64]
+    movdqu xmm3, [rip + VP_VPAT + 96]
+    movdqu xmm4, [rip + VP_VPAT + 128]
+    movdqu xmm5, [rip + VP_VPAT + 160]
+    movdqu xmm6, [rip + VP_VPAT + 192]
+    movdqu xmm7, [rip + VP_VPAT + 224]
+22:
     push qword ptr [rax + 192]
     push qword ptr [rax + 184]
     push qword ptr [rax + 176]
@@ -102,6 +139,10 @@ vp_caller:
 vp_after_call:
     mov [rip + VP_AFTER + 72], rsp
     add rsp, 24
+    cmp qword ptr [rip + VP_AVX], 0
+    je 31f
+    vzeroupper
+31:
     mov [rip + VP_AFTER + 0], rax
     mov [rip + VP_AFTER + 8], rdx
     mov [rip + VP_AFTER + 16], rbx
@@ -193,6 +234,9 @@ fn one(line: &str) -> String {
         }
     }
     out.push_str(&format!("{id} ENTRYBYTES {}\n", util::hex(&util::read16(target))));
+    let avx = std::is_x86_feature_detected!("avx");
+    unsafe { VP_AVX = avx as u64; }
+    let lanes = if avx { 4 } else { 2 };
     let mut rng = Rng(seed | 1);
     let mut bad = 0usize;
     let names = ["rdi", "rsi", "rdx", "rcx", "r8", "r9", "rbx", "rbp", "r12", "r13", "r14", "r15", "r10", "r11",
@@ -202,6 +246,8 @@ fn one(line: &str) -> String {
         unsafe {
             for k in 0..25 { VP_PAT[k] = match i % 4 { 0 => rng.next(), 1 => rng.next() | 0x8000_0000_0000_0000, 2 => (rng.next() & 0xffff) | ((k as u64) << 56), _ => if rng.next() & 1 == 0 { 0 } else { u64::MAX } }; }
             for k in 0..40 { VP_ENTRY[k] = 0x5a5a5a5a5a5a5a5a; }
+            for r in 0..8 { VP_VPAT[4 * r] = VP_PAT[14 + r]; for l in 1..4 { VP_VPAT[4 * r + l] = match i % 3 { 0 => rng.next(), 1 => rng.next() | 1, _ => u64::MAX }; } }
+            for k in 0..32 { VP_VENTRY[k] = 0x5a5a5a5a5a5a5a5a; }
             for k in 0..16 { VP_AFTER[k] = 0; }
             let f: extern "C" fn() = std::mem::transmute(vp_caller as usize);
             f();
@@ -216,6 +262,7 @@ fn one(line: &str) -> String {
                         if k == 12 || k == 13 { scratch_changed.insert(names[k]); } else { errs.push(format!("{} at the fake's entry {:x} != {:x}", names[k], VP_ENTRY[k], VP_PAT[k])); }
                     }
                 }
+                for r in 0..8 { for l in 0..lanes { if VP_VENTRY[4 * r + l] != VP_VPAT[4 * r + l] { errs.push(format!("{}mm{r} bits {}..{} at the fake's entry {:x} != {:x}", if lanes == 4 { 'y' } else { 'x' }, 64 * l, 64 * l + 63, VP_VENTRY[4 * r + l], VP_VPAT[4 * r + l])); } } }
                 if VP_ENTRY[25] != VP_AFTER[8] - 8 { errs.push(format!("rsp at the fake's entry {:x} != caller's rsp - 8 = {:x}", VP_ENTRY[25], VP_AFTER[8] - 8)); }
                 if VP_ENTRY[26] != vp_after_call as usize as u64 { errs.push(format!("return address seen by the fake {:x} != {:x}", VP_ENTRY[26], vp_after_call as usize as u64)); }
                 if VP_AFTER[0] != 0xC0FFEE || VP_AFTER[1] != 0xD00D { errs.push(format!("return registers rax={:x} rdx={:x}", VP_AFTER[0], VP_AFTER[1])); }
@@ -227,7 +274,7 @@ fn one(line: &str) -> String {
     }
     drop(inj);
     let restored = unsafe { let f: extern "C" fn() = std::mem::transmute(vp_caller as usize); f(); VP_AFTER[0] == 0x0BAD };
-    out.push_str(&format!("{id} DONE mode={mode} patterns={n} bad={bad} scratch_changed={:?} original_after_drop={restored}\n", scratch_changed));
+    out.push_str(&format!("{id} DONE mode={mode} patterns={n} bad={bad} scratch_changed={:?} original_after_drop={restored} vector_bits={}\n", scratch_changed, 64 * lanes));
     out
 }
 
